@@ -18,7 +18,8 @@ fn strip_vk(v: &Value) -> Value {
             json!({"name": o["name"], "data": words.join(" ")})
         }
         Value::Object(o) => Value::Object(o.iter().filter(|(k, _)| k.as_str() != "vk").map(|(k, x)| (k.clone(), strip_vk(x))).collect()),
-        Value::Array(a) => Value::Array(a.iter().map(strip_vk).collect()),
+        // property records with vk = "split" only direct the renderer (statement boundary), they are not content
+        Value::Array(a) => Value::Array(a.iter().filter(|e| e.get("vk").and_then(|k| k.as_str()) != Some("split")).map(strip_vk).collect()),
         x => x.clone(),
     }
 }
@@ -88,7 +89,7 @@ fn lef_parse(case: &Value) -> Value {
 
 fn class_char(c: &str, n: u64, i: usize) -> &'static str {
     match (c, n) {
-        ("NL", _) => "\n", ("WS", _) => if i % 2 == 0 { " " } else { "\t" }, ("SEMI", _) => ";", ("QUOTE", _) => "\"", ("HASH", _) => "#",
+        ("NL", _) => "\n", ("UWS", 2) => "\u{a0}", ("UWS", _) => "\u{3000}", ("WS", _) => if i % 2 == 0 { " " } else { "\t" }, ("SEMI", _) => ";", ("QUOTE", _) => "\"", ("HASH", _) => "#",
         ("DIGIT", _) => "1", ("DOT", _) => ".", ("MINUS", _) => "-",
         ("ALPHA", 1) => "a", ("ALPHA", 2) => "é", ("ALPHA", _) => "中",
         ("OTHER", 1) => "(", _ => "😀",
@@ -148,7 +149,7 @@ fn parse_outcome(text: &str) -> Value {
 }
 /// one faulted token list: {toks}
 fn lef_fault(case: &Value) -> Value {
-    let text = render(geta(case, "toks"), (geti(case, "v") % 3) as u32, (geti(case, "v") % 4) as u32, 0);
+    let text = render(geta(case, "toks"), (geti(case, "v") % 3) as u32, (geti(case, "v") % 14) as u32, 0);   // separators 0..4, long multi-byte comment lines 5..13
     let mut o = parse_outcome(&text);
     o["id"] = id(case);
     if o["outcome"] == "panic" { o["text"] = trunc(&json!(text)); }
